@@ -54,3 +54,15 @@ def extend(claim, NA):
           'Claimed for the local backend: per-name action sequences and the repository path spelling are digits of a symbolic vector exhausted by z3 through CrossHair; the real backend is compared with a dict through exists/download/download_stream and list_files for 14 prefixes. Known finding F11 (names ending in .tmp are not listed). S3/B2 not claimed.',
           '7 names, 7 action sequences per name, 9 spellings, 14 prefixes; S3-compatible and B2 adapters outside the claim.',
           'solver-exhausted operation/spelling vectors (CrossHair realize + z3) against a reference map', '3/C13')
+    claim('C14',
+          'Bounded solver-based check: location helpers, name derivation, the lifted chunk producer (symbolic chunk plaintexts, idealised crypto: exact term structure of the stored object and its name), attribution/plan tiling and byte-string tagging are traced by CrossHair+z3; both directions of a differential against an independent reader/writer (hashlib+cryptography only) are exhausted over configuration x tree x segmentation vectors.',
+          'reference implementation written from the README scheme; idealised crypto in X1; 6 configurations x 8 trees; symbolic plaintext 1 byte.',
+          'symbolic execution of lifted producer/location code (CrossHair+z3) + solver-exhausted differential vectors against an independent format implementation', '3/C14')
+    claim('C15',
+          'Bounded solver-based check: the sorting+planning statements of restore() lifted from the source and traced by CrossHair+z3 over a symbolic presence matrix, timestamp permutation and filter pool; listings, restore and delete on real histories with filter vectors exhausted by the solver, every printed column compared with ground truth.',
+          'regexes from pools; 3 snapshots x 3 paths; bytes_to_human used as the formatter of the oracle.',
+          'symbolic execution of the lifted restore plan (CrossHair+z3) + solver-exhausted listing/filter vectors on real commands', '3/C15')
+    claim('C17',
+          'Bounded solver-based check: adapter constructors with symbolic integers (accepted sets), progress of next_cut for every accepted (min,max) as a z3 query on the LLVM IR, the Python adapter lossless over any contract-obeying cutter; settings dictionaries (hashing x chunking x cipher x kdf x mode pools incl. out-of-range, mistyped, wrong-kind, unknown entries) and add-key chains exhausted by the solver over the real init/add_key/unlock with a fresh-process round trip.',
+          'finite pools of settings values; scrypt n <= 8; as C10 for the IR part.',
+          'symbolic execution of constructors (CrossHair+z3) + LLVM IR -> SMT progress query + solver-exhausted settings vectors', '3/C17')
